@@ -147,3 +147,41 @@ package spz
 //@     invariant bounds: 0 <= i && i <= len(positions) && len(positions) == pgh.NumPoints && fresh(positions) && off(positions) == 0 && positionData == halves(in) && len(positionData) == 3 * pgh.NumPoints
 //@     invariant done: forall j int :: 0 <= j && j < i ==>
 //@       positions[j].X() == halfToFloat(positionData[3*j]) && positions[j].Y() == halfToFloat(positionData[3*j+1]) && positions[j].Z() == halfToFloat(positionData[3*j+2])
+
+// spherical harmonics: per point shDim coefficients, interleaved point-major: byte ((i*shDim + d)*3 + c)
+//@ lemma sh_offset_is_point_major(i int, d int, dim int)
+//@   props C15
+//@   ensures (i*dim + d)*3 == d*3 + i*3*dim
+//@ spec unq(x float64) float64 = (x - 128.0) / 128.0
+//@ spec shOf(b0 float64, b1 float64, b2 float64) vector3.Float64 = vector3.New(unq(b0), unq(b1), unq(b2))
+//@ spec shDimOf(deg int) int = (deg == 0) ? 0 : ((deg == 1) ? 3 : ((deg == 2) ? 8 : 15))
+//@ func Header.readSh
+//@   props C15 C14
+//@   requires pgh.NumPoints <= 10000000
+//@   modifies ghost consumed
+//@   returns sh, err
+//@   ensures dims: err == nil ==> len(sh) == shDimOf(pgh.ShDegree) && pgh.ShDegree <= 3
+//@   ensures lengths: err == nil ==> forall d int :: 0 <= d && d < len(sh) ==> len(sh[d]) == pgh.NumPoints
+//@   ensures bytes_present: err == nil ==> consumed(in) <= total(in)
+//@   ensures consumed_degree0: err == nil && pgh.ShDegree == 0 ==> consumed(in) == old(consumed(in))
+//@   ensures consumed_degree1: err == nil && pgh.ShDegree == 1 ==> consumed(in) == old(consumed(in)) + 9 * pgh.NumPoints
+//@   ensures consumed_degree2: err == nil && pgh.ShDegree == 2 ==> consumed(in) == old(consumed(in)) + 24 * pgh.NumPoints
+//@   ensures consumed_degree3: err == nil && pgh.ShDegree == 3 ==> consumed(in) == old(consumed(in)) + 45 * pgh.NumPoints
+//@   ensures values: err == nil ==> forall d int :: 0 <= d && d < len(sh) ==> forall i int :: 0 <= i && i < pgh.NumPoints ==>
+//@       sh[d][i] == shOf(b(in, old(consumed(in)), d*3 + i*3*len(sh)), b(in, old(consumed(in)), d*3 + i*3*len(sh) + 1), b(in, old(consumed(in)), d*3 + i*3*len(sh) + 2))
+//@   ensures nothing_on_failure: err != nil ==> len(sh) == 0
+//@   loop 1:
+//@     invariant bounds: 0 <= i && i <= len(sh) && len(sh) == shDim && fresh(sh) && off(sh) == 0 && (shDim == 3 || shDim == 8 || shDim == 15) && shDim == shDimOf(pgh.ShDegree)
+//@     invariant byte_count: (shDim == 3 ==> len(shData) == 9 * pgh.NumPoints) && (shDim == 8 ==> len(shData) == 24 * pgh.NumPoints) && (shDim == 15 ==> len(shData) == 45 * pgh.NumPoints)
+//@     invariant rows: forall d int :: 0 <= d && d < i ==> len(sh[d]) == pgh.NumPoints && fresh(sh[d]) && allocated(sh[d]) && off(sh[d]) == 0
+//@     invariant distinct_rows: forall d1 int, d2 int :: { sh[d1], sh[d2] } 0 <= d1 && d1 < d2 && d2 < i ==> ref(sh[d1]) != ref(sh[d2])
+//@   loop 2:
+//@     invariant bounds: 0 <= i && i <= pgh.NumPoints
+//@     invariant done: forall d int :: 0 <= d && d < len(sh) ==> forall p int :: 0 <= p && p < i ==>
+//@       sh[d][p] == shOf(b(in, old(consumed(in)), d*3 + p*3*shDim), b(in, old(consumed(in)), d*3 + p*3*shDim + 1), b(in, old(consumed(in)), d*3 + p*3*shDim + 2))
+//@   loop 3:
+//@     invariant bounds: 0 <= d && d <= shDim && 0 <= i && i < pgh.NumPoints
+//@     invariant done: forall e int :: 0 <= e && e < len(sh) ==> forall p int :: 0 <= p && p < i ==>
+//@       sh[e][p] == shOf(b(in, old(consumed(in)), e*3 + p*3*shDim), b(in, old(consumed(in)), e*3 + p*3*shDim + 1), b(in, old(consumed(in)), e*3 + p*3*shDim + 2))
+//@     invariant row_i: forall e int :: 0 <= e && e < d ==>
+//@       sh[e][i] == shOf(b(in, old(consumed(in)), e*3 + i*3*shDim), b(in, old(consumed(in)), e*3 + i*3*shDim + 1), b(in, old(consumed(in)), e*3 + i*3*shDim + 2))
